@@ -436,7 +436,8 @@ for _p, _note in (("C06", "client half: theorems c06_client_*; monitor ClientSpe
                   ("C16", "CLIENT HALF (handler exactly once): theorems c16_client_publish2_silent (a QoS-2 PUBLISH, first or retransmitted, runs no callback), "
                           "c16_client_publish2_opens, c16_client_pubrel_once (the PUBREL of an open exchange delivers once, answers PUBCOMP, forgets the exchange), "
                           "c16_client_pubrel_unknown_silent / c16_client_second_pubrel_silent (a retransmitted PUBREL runs no callback) for ALL states of the client model; "
-                          "monitor ClientSpec.c16 (every QoS-2 callback run is covered by exactly one PUBREL of an open exchange) on traces of the real client; tie: client suite"),
+                          "monitor ClientSpec.c16 (every QoS-2 callback run is covered by exactly one PUBREL of an open exchange; a released message on a short / predefined topic that a "
+                          "current subscription matches does reach a callback) on traces of the real client, incl. first copies that carry DUP; tie: client suite"),
                   ("C23", "client half: monitor ClientSpec.c23 on every datagram the real client sends (no theorem for the client half yet)"),
                   ("C27", "history half: theorems c27_dispatch / c27_no_match_no_callback / c27_unsubscribed; monitor ClientSpec.c27 (current subscriptions from the API results)"),
                   ("C31", "client half: theorems c31_client_auth_after_connect / c31_client_no_auth_without_user; monitor ClientSpec.c31")):
